@@ -1,5 +1,5 @@
 """C13  A constraint error accounts for every input byte (fault enumeration)."""
-from .. import cases, faultspace, oracle
+from .. import bscope, cases, faultspace, oracle
 from ..ref import values as V
 
 LEVEL = "fault_enumeration"
@@ -11,10 +11,15 @@ ASSUMPTIONS = [
 ]
 
 
+B_STRICT = ('remaining',)
+B_WARN = ()
+
+
 def units(tier, seed):
     us = cases.fault_units(tier, seed, with_prims=True)
     for u in us:
         u["seed"], u["tier"] = seed, tier
+    us += bscope.units(tier, seed)
     return us
 
 
@@ -43,6 +48,8 @@ def accounting(acc, case, m, f, ref, r):
 
 
 def run_unit(unit):
+    if unit["kind"] == "bscope":
+        return bscope.run_b_unit(unit, strict_own=B_STRICT, warn_props=B_WARN)
     fams = ["size", "value", "last"] + (["subst"] if unit["tier"] == "thorough" or unit["kind"] == "struct" else [])
     return faultspace.run_unit(unit, fams, OWN, extra_check=accounting)
 
@@ -59,4 +66,6 @@ def finish(acc, tier, seed):
 
 
 def replay(case):
+    if case.get("harness") == "bytestep":
+        return bscope.replay(case, strict_own=B_STRICT, warn_props=B_WARN)
     return faultspace.replay(case, OWN, extra_check=accounting)
